@@ -425,8 +425,13 @@ def r9b(body):
     return body, count
 
 
+@rule("R24", "for P in &E { -> for P in vx_it: E.iter() {   [`impl IntoIterator for &Vec<T>` is `iter()`; names the ghost iterator]")
+def r24(body):
+    return _sub(r"\bfor\s+(\w+)\s+in\s+&\s*([\w\.]+)\s*\{", lambda m: "for %s in vx_it: %s.iter() {" % (m.group(1), m.group(2)), body)
+
+
 # rules that are purely syntactic proof devices are applied only when a unit asks for them
-OPT_IN = {"R9", "R9b", "R15", "R17", "R21", "R22"}
+OPT_IN = {"R9", "R9b", "R15", "R17", "R21", "R22", "R24"}
 
 
 @rule("R3b", "assert!(E, \"msg\") -> proved assertion on the executable operand   [strengthening: the runtime check must never fire]")
